@@ -14,7 +14,7 @@ import (
 func genLargeCfg(t *rapid.T, kind string) PCfg {
 	c := PCfg{Kind: kind}
 	sa := kind == "GSAP" || kind == "OSAP"
-	switch weighted(t, "bufKind", 4, 3, 2) {
+	switch weighted(t, "bufKind", 3, 4, 2) {
 	case 0:
 		hi := 150_000
 		if sa {
@@ -22,7 +22,10 @@ func genLargeCfg(t *rapid.T, kind string) PCfg {
 		}
 		c.BufferSize = rapid.IntRange(33_000, hi).Draw(t, "buf")
 	case 1:
-		c.BufferSize = rapid.SampledFrom([]int{32767, 32768, 32769, 65535, 65536, 65537, 40_000, 65539, 65541, 65543, 65544, 131072 + 5, 131072 + 7}).Draw(t, "bufPow")
+		// (a few bytes above a power of two: the array of the buffer is
+		// still doubling when the buffer size is reached)
+		c.BufferSize = rapid.SampledFrom([]int{65539, 65541, 65543, 65544, 131072 + 5, 131072 + 7, 65540, 65542, 131072 + 3,
+			32767, 32768, 32769, 65535, 65536, 65537, 40_000}).Draw(t, "bufPow")
 		if sa && c.BufferSize > 40_000 {
 			c.BufferSize = 32768 + c.BufferSize%3
 		}
@@ -69,7 +72,7 @@ func genLargeCfg(t *rapid.T, kind string) PCfg {
 		}
 	}
 	c.BlockSize = rapid.SampledFrom([]int{0, 4096, 65535, 65536, 131072, 1000, 33_000, 131073, 200_000, 262144, 1 << 20}).Draw(t, "blk")
-	if !sa && rapid.Bool().Draw(t, "bigBlocks") {
+	if !sa && rapid.IntRange(0, 2).Draw(t, "bigBlocks") == 0 {
 		// blocks beyond the default 128 KiB need a buffer that holds them
 		c.BlockSize = rapid.SampledFrom([]int{131072, 131073, 200_000, 262144, 1 << 20, 0}).Draw(t, "blkBig")
 		c.BufferSize = rapid.SampledFrom([]int{0, 0, 300_000, 524288, 1 << 20}).Draw(t, "bufBig")
